@@ -62,6 +62,10 @@ func main() {
 				continue
 			}
 			switch {
+			case i%5 == 3:
+				c.Methods = hist.MethodPool[:1]
+				hist.GenPartial(r, &c, 3, 5)
+				hist.GenOps(r, &c, len(c.Ops)+ops/2, r.IntN(3), false)
 			case i%5 == 4:
 				hist.GenStory(r, &c)
 			case i == 0:
@@ -71,6 +75,7 @@ func main() {
 			default:
 				hist.GenOps(r, &c, ops, r.IntN(3), true)
 			}
+			c.Tight = i%4 == 2
 			check(run, c)
 		}
 	})
@@ -84,6 +89,7 @@ func deep(run *kit.Run) {
 		r := run.Rand(uint64(900000 + b))
 		c := hist.Case{Methods: hist.MethodPool[:2]}
 		p := ""
+		var chain []string
 		for i := 0; i < 34; i++ {
 			switch i % 5 {
 			case 3:
@@ -92,6 +98,10 @@ func deep(run *kit.Run) {
 				p += "/" + string(rune('a'+i%26))
 			}
 			c.Pool = append(c.Pool, p)
+			chain = append(chain, p)
+			// a sibling that sorts after the chain's next element, at every level
+			chain = append(chain, p+"/~"+string(rune('a'+i%26)))
+			c.Pool = append(c.Pool, p+"/~"+string(rune('a'+i%26)))
 			if i%4 == 0 {
 				c.Pool = append(c.Pool, p+"/")
 				if !strings.HasSuffix(p, "}") {
@@ -104,7 +114,25 @@ func deep(run *kit.Run) {
 			c.Pool = append(c.Pool, "/fan/"+string(al[i])+"x")
 		}
 		c.Pool = append(c.Pool, "/fan/{p}", "/fan/*{c}")
-		hist.GenOps(r, &c, 260, r.IntN(3), false)
+		// two rounds out of three start from the fully registered ladder (so that the tree really is deeper than 25),
+		// registered shortest-first, longest-first (every insert splits above existing sub-trees) or in random order
+		switch b % 3 {
+		case 1:
+			for i := len(chain) - 1; i >= 0; i-- {
+				c.Ops = append(c.Ops, hist.Op{Kind: "handle", Method: c.Methods[0], Pattern: chain[i]})
+			}
+		case 2:
+			for _, i := range r.Perm(len(chain)) {
+				c.Ops = append(c.Ops, hist.Op{Kind: "handle", Method: c.Methods[0], Pattern: chain[i]})
+			}
+			if b%2 == 0 {
+				c.Ops = nil
+				for _, q := range chain {
+					c.Ops = append(c.Ops, hist.Op{Kind: "handle", Method: c.Methods[0], Pattern: q})
+				}
+			}
+		}
+		hist.GenOps(r, &c, len(c.Ops)+200, r.IntN(3), false)
 		check(run, c)
 		run.Count("deep_chain_histories", 1)
 	})
@@ -147,6 +175,20 @@ func check(run *kit.Run, c hist.Case) {
 			if want, got := w.Expect(w.Committed), w.Observe(w.F); want != got {
 				run.Violate("router-view|"+id[:min(len(id), 300)]+fmt.Sprint(i), fmt.Sprintf("after op #%d (%s) the router differs from the map model\n%s\npool: %v\nhistory: %s", i, op, hist.Diff(want, got), c.Pool, c.String()), c)
 				return
+			}
+			// the router also ROUTES like the model (lookups, not only exact reads); every third step
+			if i%3 == 0 || op.Kind == "commit" || op.Kind == "abort" {
+				if d := w.RoutingProblem(w.F, w.Committed); d != "" {
+					run.Violate("router-routing|"+id[:min(len(id), 300)]+fmt.Sprint(i), fmt.Sprintf("after op #%d (%s) the router does not route like the map model: %s\npool: %v\nhistory: %s", i, op, d, c.Pool, c.String()), c)
+					return
+				}
+				run.Count("routing_comparisons", 1)
+				if w.Txn != nil && !quiet {
+					if d := w.RoutingProblem(w.Txn, w.Pending); d != "" {
+						run.Violate("txn-routing|"+id[:min(len(id), 300)]+fmt.Sprint(i), fmt.Sprintf("after op #%d (%s) the open transaction does not route like the map model: %s\npool: %v\nhistory: %s", i, op, d, c.Pool, c.String()), c)
+						return
+					}
+				}
 			}
 			if w.Txn != nil && !quiet {
 				if want, got := w.Expect(w.Pending), w.Observe(w.Txn); want != got {
